@@ -9,10 +9,10 @@ cargo test --offline -p prqlc -p prqlc-parser 2>&1 | grep -E "^test result|FAILE
 cp $OUT/demo.rs prqlc/prqlc/examples/seed_demo.rs
 echo "== demo with patch"; cargo run --offline -q -p prqlc --example seed_demo >/tmp/seed-$ID-demo-with.txt 2>&1; echo "exit=$?"; tail -3 /tmp/seed-$ID-demo-with.txt
 rm -f prqlc/prqlc/examples/seed_demo.rs
-git stash -q
+git diff > /tmp/seed-$ID-cur.diff; git apply -R /tmp/seed-$ID-cur.diff
 cp $OUT/demo.rs prqlc/prqlc/examples/seed_demo.rs
 echo "== demo without patch"; cargo run --offline -q -p prqlc --example seed_demo >/tmp/seed-$ID-demo-without.txt 2>&1; echo "exit=$?"; tail -2 /tmp/seed-$ID-demo-without.txt
 rm -f prqlc/prqlc/examples/seed_demo.rs
-git stash pop -q
+git apply /tmp/seed-$ID-cur.diff
 } > $OUT/verify.log 2>&1
 cat $OUT/verify.log
